@@ -21,7 +21,7 @@
    the arrays keep one row per event while summary() has one row per distinct time, and the
    `time == tmin` reset drops the entries of a node before a change at tmin. *)
 From EoNV Require Import Prelude Samp Graph EventSIR EventSIRP EventSIRInv EventSIRMain EventSIRPred.
-From EoNV Require Import Investigation InvestigationP EventSIRLog EventSIRRows EventSIRTraj EventSIRC04 EventSIRC10 EventSIRHist EventSIRC10m.
+From EoNV Require Import Investigation InvestigationP EventSIRLog EventSIRRows EventSIRTraj EventSIRC04 EventSIRC10 EventSIRHist EventSIRC10m EventSIRC10c.
 From Coq Require Import Sorting.Sorted.
 
 Theorem C10_esir_summary_equals_arrays : forall tb g delay dur i0 r0 tmin tmax fuel,
@@ -60,6 +60,19 @@ Theorem C10_esir_summary_merged_by_time : forall tb g delay dur i0 r0 tmin tmax 
        exists a r b, so_rows out = a ++ r :: b /\ fst r == t /\ snd r = cs /\ forall r', In r' b -> t < fst r') /\
     (forall r, In r (so_rows out) -> exists t, In t (map fst rows') /\ t == fst r).
 Proof. exact esir_summary_merged. Qed.
+
+(* --- the decidable checker of the generic part ([consistent_b], Model/Investigation.v;
+   Props/C10.v [C10_checker_sound], [C10_checker_acceptance_means]) — the one the C10 check
+   applies to the implementation's full-data object and arrays — accepts the outputs of EVERY
+   run, ties included, every tie policy: every node history starts at tmin, is time-ordered,
+   uses S/I/R and only the moves S->I, I->R; summary() succeeds; summary() and the arrays are
+   the same step function (equal at every time either of them lists) *)
+Theorem C10_esir_checker_accepts_every_run : forall tb g delay dur i0 r0 tmin tmax fuel,
+  esir_okb2 g delay dur i0 r0 tmin tmax = true -> (esir_fuel g i0 <= fuel)%nat -> gnodes g <> [] ->
+  exists out cs fd,
+    esir_det tb g delay dur i0 r0 tmin tmax true fuel = Ok (out, cs) /\ so_full out = Some fd /\
+    consistent_b (mkInv (gnodes g) (fd_hist fd) None (Some sir_ps)) (so_rows out) tmin sir_moves = true.
+Proof. exact esir_outputs_consistent. Qed.
 
 (* ---------------- non-vacuity ---------------- *)
 (* the triangle of Props/C11.v with delay 0->2 = 5/2: strictly increasing event times *)
@@ -122,5 +135,6 @@ Proof. vm_compute. repeat split. Qed.
 
 Print Assumptions C10_esir_summary_equals_arrays.
 Print Assumptions C10_esir_summary_merged_by_time.
+Print Assumptions C10_esir_checker_accepts_every_run.
 Print Assumptions C10_esir_example_ties.
 Print Assumptions C10_esir_example.
